@@ -21,7 +21,8 @@ RULE = ("batches of length 0-8 over a pool of 5 distinct elements (values from t
         '; rounds 10-11: a function with **opts and elements naming parameters outside the signature'
         '; round 12: batches of 300+ elements with early and middle failures, first failure raised'
         '; round 13: ignore_result batches over memoized elements'
-        '; round 14: every third batch under the function\'s own context arguments')
+        '; round 14: every third batch under the function\'s own context arguments'
+        '; round 15: dates / timestamps next to their spellings as elements; elements whose body evaluates a batch of its own')
 ASSUMPTIONS = ["elements raising not-to-be-memoized exceptions are exempt from the at-most-once rule",
                "store states are compared as sets of (qualified name, argument hash, result type, value)"]
 TIMEOUT = 600
